@@ -63,4 +63,9 @@ func init() {
 		Decides:    "structural necessary conditions of 'every distinct key once, in key order': position-wise row comparators are two-sided (C19-a); the key is extracted in the column layout its positions were computed for (C19-b); spill errors are not dropped and the row codec does not wrap (C01-a, C01-b); every spill file has a close+remove cleanup registered that Close runs (C19-d).",
 		NotDecided: "sortedness and de-duplication of the output for all row multisets and memory limits (value-dependent).",
 	}
+	props["C17"] = &propSpec{
+		Rules:      []string{"C17-a", "C17-b", "C17-c", "C17-d"},
+		Decides:    "in the hostile-reachable set: no unbounded stream-decoded count sizes an allocation (C17-a); fixed-width reads from caller-supplied byte slices are length-guarded (C17-b); constant indices into decoded collections are length-guarded (C17-c); results that can be nil together with an error are not dereferenced before the error test (C17-d).",
+		NotDecided: "implicit index panics with non-constant indices, loop termination, 'nothing from a rejected packfile is left referenced'.",
+	}
 }
